@@ -133,7 +133,7 @@ template <class T> struct dprec {
 };
 
 // ------------------------------------------------------------------ the real solvers
-struct cfg { std::string method, side = "right"; int M = 30, L = 2, s = 4, K = 3; double damping = 1.0; };
+struct cfg { std::string method, side = "right"; int M = 30, L = 2, s = 4, K = 3; double damping = 1.0, delta = 0.0; };
 struct result { bool ok = true; std::string exc; size_t it = 0; double rep = 0; bool finite = true; };
 
 // One solver OBJECT, used for any number of solves: maxiter / tol are changed through the public
@@ -169,7 +169,7 @@ void with_solver(const problem<T> &pb, const cfg &c, Body &&body) {
     side::type ps = c.side == "left" ? side::left : side::right;
     if (c.method == "cg") { typename amgcl::solver::cg<B>::params p; with_object<T, amgcl::solver::cg<B>>(pb, p, body); }
     else if (c.method == "bicgstab") { typename amgcl::solver::bicgstab<B>::params p; p.pside = ps; with_object<T, amgcl::solver::bicgstab<B>>(pb, p, body); }
-    else if (c.method == "bicgstabl") { typename amgcl::solver::bicgstabl<B>::params p; p.pside = ps; p.L = c.L; with_object<T, amgcl::solver::bicgstabl<B>>(pb, p, body); }
+    else if (c.method == "bicgstabl") { typename amgcl::solver::bicgstabl<B>::params p; p.pside = ps; p.L = c.L; p.delta = c.delta; with_object<T, amgcl::solver::bicgstabl<B>>(pb, p, body); }
     else if (c.method == "gmres") { typename amgcl::solver::gmres<B>::params p; p.pside = ps; p.M = c.M; with_object<T, amgcl::solver::gmres<B>>(pb, p, body); }
     else if (c.method == "fgmres") { typename amgcl::solver::fgmres<B>::params p; p.M = c.M; with_object<T, amgcl::solver::fgmres<B>>(pb, p, body); }
     else if (c.method == "lgmres") { typename amgcl::solver::lgmres<B>::params p; p.pside = ps; p.M = c.M; p.K = c.K; with_object<T, amgcl::solver::lgmres<B>>(pb, p, body); }
@@ -331,6 +331,49 @@ template <class T> std::vector<std::vector<typename wide<T>::type>> wide_scale(c
     for (size_t c = 0; c < D.size(); ++c) for (int i = 0; i < pb.n; ++i) D[c][i] = W(pb.vscale[c][i]);
     return D;
 }
+// LGMRES(M, K) (Baker, Jessup, Manteuffel 2005) as documented in lgmres.hpp: a cycle has M + K steps; its
+// search vectors are first Krylov vectors (the newest Arnoldi vector), then the augmentation vectors = the
+// normalised corrections dx of the last (at most K) completed cycles, oldest first; x += [P] sum y_j z_j with
+// y the least-squares solution on the Hessenberg matrix.  Iterate k = the least-squares solution after k steps.
+template <class W> iterates<W> ref_lgmres(const dmat<W> &A, const dmat<W> &P, const std::vector<W> &f, const std::vector<W> &x0,
+        int Ktot, int M, int Kaug, bool left) {
+    iterates<W> out; int n = f.size(); int Mint = M + Kaug;
+    dmat<W> B = left ? mul(P, A) : mul(A, P);
+    std::vector<W> x = x0;
+    std::vector<std::vector<W>> ring;          // the last <= Kaug normalised corrections, oldest first
+    while ((int)out.size() < Ktot) {
+        std::vector<W> r0 = sub(f, mul(A, x));
+        std::vector<W> g = left ? mul(P, r0) : r0;
+        ld beta = nrm(g);
+        if (beta == 0) break;
+        int m = std::min(Mint, Ktot - (int)out.size());
+        std::vector<std::vector<W>> V(1, g), Z; for (auto &v : V[0]) v /= W(beta);
+        std::vector<std::vector<W>> H(m, std::vector<W>(m + 1, W(0)));
+        std::vector<W> dx(n, W(0));
+        for (int j = 0; j < m; ++j) {
+            int nk = Mint - (int)ring.size();                       // number of Krylov steps in this cycle
+            std::vector<W> z = j >= nk ? ring[j - nk] : V[j];
+            Z.push_back(z);
+            std::vector<W> w = mul(B, z);
+            for (int pass = 0; pass < 2; ++pass)
+                for (int i = 0; i <= j; ++i) { W h = dot(w, V[i]); H[j][i] += h; w = axpy(-h, V[i], w); }
+            ld hn = nrm(w); H[j][j + 1] = W(hn);
+            if (hn > 0) for (auto &v : w) v /= W(hn);
+            V.push_back(w);
+            EMat<W> Hm = EMat<W>::Zero(j + 2, j + 1);
+            for (int c = 0; c <= j; ++c) for (int i = 0; i <= c + 1; ++i) Hm(i, c) = H[c][i];
+            EVec<W> rhs = EVec<W>::Zero(j + 2); rhs(0) = W(beta);
+            EVec<W> y = Hm.householderQr().solve(rhs);
+            dx.assign(n, W(0));
+            for (int c = 0; c <= j; ++c) dx = axpy(W(y(c)), Z[c], dx);
+            out.push_back(axpy(W(1), left ? dx : mul(P, dx), x));
+        }
+        x = out.back();
+        ld nd = nrm(dx);
+        if (Kaug > 0 && nd > 0) { for (auto &v : dx) v /= W(nd); ring.push_back(dx); if ((int)ring.size() > Kaug) ring.erase(ring.begin()); }
+    }
+    return out;
+}
 template <class W> iterates<W> ref_richardson(const dmat<W> &A, const dmat<W> &P, const std::vector<W> &f, const std::vector<W> &x0, int K, ld omega) {
     iterates<W> out; std::vector<W> x = x0;
     for (int k = 0; k < K; ++k) { x = axpy(W(omega), mul(P, sub(f, mul(A, x))), x); out.push_back(x); }
@@ -389,13 +432,14 @@ void compare_with_reference(const problem<T> &pb, const cfg &c, int K, const cha
     else if (c.method == "gmres") R = ref_gmres(pb.A, pb.P, pb.f, pb.x0, K, c.M, left);
     else if (c.method == "fgmres" && pb.variableP) R = ref_fgmres_var(pb.A, pb.P, wide_scale(pb), pb.f, pb.x0, K, c.M);
     else if (c.method == "fgmres") R = ref_gmres(pb.A, pb.P, pb.f, pb.x0, K, c.M, false);
-    else if (c.method == "lgmres") R = ref_gmres(pb.A, pb.P, pb.f, pb.x0, K, c.M + c.K, left);    // first cycle: no augmentation vectors yet
+    else if (c.method == "lgmres") R = ref_lgmres(pb.A, pb.P, pb.f, pb.x0, K, c.M, c.K, left);
     else if (c.method == "richardson") R = ref_richardson(pb.A, pb.P, pb.f, pb.x0, K, (ld)c.damping);
     ld xs = nrm(pb.xstar);
     ld kap = cond2(left ? mul(pb.P, pb.A) : mul(pb.A, pb.P));
     vr::obj o;
     o.str("k", "ref").str("method", c.method).str("side", c.side).str("vt", vt).str("kind", kind).i("id", id)
-     .i("n", pb.n).i("M", c.M).i("L", c.L).i("s", c.s).i("K", c.K).i("idP", pb.identityP).i("var", pb.variableP).i("cond", md(kap));
+     .i("n", pb.n).i("M", c.M).i("L", c.L).i("s", c.s).i("K", c.K).i("idP", pb.identityP).i("var", pb.variableP).i("delta", (long)std::lround(1000 * c.delta)).i("cond", md(kap));
+    if (!R.empty()) o.i("rlast", md(nrm(sub(pb.f, mul(pb.A, R.back()))) / nrm(pb.f)));     // residual the reference run ends with
     std::vector<long> errs, its; int nexc = 0, nnan = 0; std::string exc;
     for (int k = 1; k <= (int)R.size(); ++k) {
         std::vector<T> x;
@@ -416,7 +460,7 @@ void compare_with_reference(const problem<T> &pb, const cfg &c, int K, const cha
     else if (c.method == "gmres") R2 = ref_gmres(pb.A, pb.P, f2, x2, K, c.M, left);
     else if (c.method == "fgmres" && pb.variableP) R2 = ref_fgmres_var(pb.A, pb.P, wide_scale(pb), f2, x2, K, c.M);
     else if (c.method == "fgmres") R2 = ref_gmres(pb.A, pb.P, f2, x2, K, c.M, false);
-    else if (c.method == "lgmres") R2 = ref_gmres(pb.A, pb.P, f2, x2, K, c.M + c.K, left);
+    else if (c.method == "lgmres") R2 = ref_lgmres(pb.A, pb.P, f2, x2, K, c.M, c.K, left);
     else if (c.method == "richardson") R2 = ref_richardson(pb.A, pb.P, f2, x2, K, (ld)c.damping);
     ld xs2 = nrm(dense_solve(pb.A, f2));
     std::vector<long> errA, errB; int rexc = 0, rnan = 0;
@@ -435,6 +479,29 @@ void compare_with_reference(const problem<T> &pb, const cfg &c, int K, const cha
         }
     });
     o.ints("errA", errA).ints("errB", errB).i("nref2", (long)std::min(R.size(), R2.size())).i("rexc", rexc).i("rnan", rnan);
+    vr::emit(o.done());
+}
+
+// BiCGStab(L) with reliable updates (delta > 0): refreshing the residual and flushing the accumulated
+// correction into x must not change the iterates (beyond rounding): x_k(delta) against x_k(delta = 0), both
+// from the real solver, for every multiple k of L
+template <class T>
+void compare_delta(const problem<T> &pb, const cfg &c, int K, const char *vt, const char *kind, long id) {
+    typedef typename wide<T>::type W;
+    bool left = c.side == "left";
+    ld xs = nrm(pb.xstar), kap = cond2(left ? mul(pb.P, pb.A) : mul(pb.A, pb.P));
+    cfg c0 = c; c0.delta = 0;
+    std::vector<long> errs; int nexc = 0, nnan = 0;
+    for (int k = c.L; k <= K; k += c.L) {
+        std::vector<T> x, y;
+        result r = run_real(pb, c, k, 0.0, x), r0 = run_real(pb, c0, k, 0.0, y);
+        if (!r.ok || !r0.ok) { ++nexc; break; } if (!r.finite || !r0.finite) { ++nnan; break; }
+        std::vector<W> d(pb.n); for (int i = 0; i < pb.n; ++i) d[i] = W(x[i]) - W(y[i]);
+        errs.push_back(md(nrm(d) / xs));
+    }
+    vr::obj o; o.str("k", "delta").str("method", c.method).str("side", c.side).str("vt", vt).str("kind", kind).i("id", id).i("n", pb.n)
+        .i("L", c.L).i("delta", (long)std::lround(1000 * c.delta)).i("idP", pb.identityP).i("cond", md(kap)).ints("err", errs)
+        .i("want", (long)(K / c.L)).i("nexc", nexc).i("nnan", nnan);
     vr::emit(o.done());
 }
 
@@ -477,6 +544,27 @@ template <class T> void mode_ref_type(vr::rng &g, const char *vt, int reps) {
         for (int mi = 0; mi < 4; ++mi) { cfg c; c.method = "fgmres"; c.M = MS[mi]; cs.push_back(c); }
         for (int sd = 0; sd < 2; ++sd) { cfg c; c.method = "lgmres"; c.side = sd ? "left" : "right"; c.M = g.range(2, 6); c.K = g.range(0, 3); cs.push_back(c); }
         for (auto &c : cs) compare_with_reference(pb, c, c.method == "lgmres" ? std::min(K, c.M + c.K) : K, vt, "shift", ++g_id);
+    }
+    // LGMRES over at least K + 4 restart cycles (the augmentation ring wraps around more than once): small
+    // (M, K), non-zero initial guess, slowly converging systems (larger off-diagonal part / shift-like)
+    for (int rep = 0; rep < reps; ++rep) for (int shape = 0; shape < 2; ++shape) for (int pk = 0; pk < 3; pk += 2) {
+        int n = shape ? 20 : 45;
+        problem<T> pb = make_problem<T>(g, n, false, pk, shape ? 1.0L : 3.0L, shape);
+        static const int MK[4][2] = {{1, 2}, {2, 2}, {2, 3}, {3, 2}};
+        for (int q = 0; q < 4; ++q) for (int sd = 0; sd < 2; ++sd) {
+            cfg c; c.method = "lgmres"; c.side = sd ? "left" : "right"; c.M = MK[q][0]; c.K = MK[q][1];
+            compare_with_reference(pb, c, (c.K + 4) * (c.M + c.K) + 2, vt, shape ? "shift-long" : "nonsym-long", ++g_id);
+        }
+    }
+    // BiCGStab(L) with reliable updates: L = 1 against the BiCGStab reference, L = 2, 4 against the delta = 0 run
+    for (int rep = 0; rep < reps; ++rep) for (int n : {12, 33}) for (int pk = 0; pk < 3; pk += 2) {
+        problem<T> pb = make_problem<T>(g, n, false, pk);
+        static const double DL[3] = {0.01, 0.1, 0.5};
+        for (int di = 0; di < 3; ++di) for (int sd = 0; sd < 2; ++sd) for (int L : {1, 2, 4}) {
+            cfg c; c.method = "bicgstabl"; c.L = L; c.side = sd ? "left" : "right"; c.delta = DL[di];
+            if (L == 1) compare_with_reference(pb, c, std::min(n, 14), vt, "nonsym-delta", ++g_id);
+            else compare_delta(pb, c, std::min(n, 16), vt, "nonsym-delta", ++g_id);
+        }
     }
     // FGMRES with a VARIABLE preconditioner (a different operator on every application): the flexible
     // GMRES reference; restarts included
@@ -573,7 +661,7 @@ template <class T> void prop_termination(const problem<T> &pb, const cfg &c, con
         with_solver(pb, c, [&](solve_fn<T> &solve) { std::vector<T> y; solve(std::max(1, budget / 2), 1e-12, f2d, x2d, y); r = solve(budget, 1e-12, pb.fd, pb.x0d, x); });
     }
     vr::obj o; o.str("k", "term").str("method", c.method).str("side", c.side).str("vt", vt).str("prec", pk).i("id", id).i("n", pb.n)
-        .i("L", c.L).i("s", c.s).i("M", c.M).i("budget", budget).i("sym", sym).i("reuse", reuse).i("var", pb.variableP).i("cond", md(cond2(pb.A)));
+        .i("L", c.L).i("s", c.s).i("M", c.M).i("budget", budget).i("sym", sym).i("reuse", reuse).i("var", pb.variableP).i("delta", (long)std::lround(1000 * c.delta)).i("cond", md(cond2(pb.A)));
     if (!r.ok) { o.str("exc", r.exc); vr::emit(o.done()); return; }
     o.i("it", (long)r.it).i("nan", !r.finite);
     if (r.finite) {
@@ -631,6 +719,18 @@ template <class T> void mode_prop_type(vr::rng &g, const char *vt, int reps) {
                 prop_termination(pe, c, vt, "exact", ++g_id, b1, sym);
             }
             { cfg c; c.method = "richardson"; prop_termination(pe, c, vt, "exact", ++g_id, 1, sym); }
+            // BiCGStab(L) with reliable updates (delta > 0), identity and general dense preconditioner
+            if (!sym) {
+                problem<T> pg = make_problem<T>(g, n, false, 2, 1.5L);
+                static const double DL[3] = {0.01, 0.1, 0.5};
+                for (int di = 0; di < 3; ++di) for (int L : {1, 2, 4}) for (int sd = 0; sd < 2; ++sd) {
+                    cfg c; c.method = "bicgstabl"; c.L = L; c.side = sd ? "left" : "right"; c.delta = DL[di];
+                    int budget = ((n + L - 1) / L) * L;
+                    prop_termination(pb, c, vt, "identity", ++g_id, budget, sym);
+                    prop_termination(pg, c, vt, "general", ++g_id, budget, sym);
+                    prop_termination(pg, c, vt, "general", ++g_id, budget, sym, /*reuse=*/true);
+                }
+            }
         }
     }
 }
